@@ -230,6 +230,9 @@ def random_ctls_state(r, depth, atoms=('p', 'q', 'r'), qdepth=2,
         if k < 0.75:
             return ('not', state(depth - 1, qd))
         op = r.choice(['and', 'or', 'imply'])
+        if op != 'imply' and r.random() < 0.25:
+            return (op, state(depth - 1, qd), state(depth - 1, qd),
+                    state(depth - 1, qd))
         return (op, state(depth - 1, qd), state(depth - 1, qd))
 
     def path(depth, qd):
@@ -242,6 +245,9 @@ def random_ctls_state(r, depth, atoms=('p', 'q', 'r'), qdepth=2,
             return ('not', path(depth - 1, qd))
         if k < 0.45:
             op = r.choice(['and', 'or', 'imply'])
+            if op != 'imply' and r.random() < 0.3:
+                return (op,) + tuple(path(depth - 1, qd)
+                                     for _ in range(r.choice([3, 3, 4])))
             return (op, path(depth - 1, qd), path(depth - 1, qd))
         op = r.choice('XFGUR')
         if op in 'XFG':
